@@ -48,7 +48,9 @@ Clauses(e) ==
        accessors |-> (ok => AccessorsOK(e, after)),
        \* ---- C12
        mbr_iff_changes |-> (ok /\ e.op = "refine" => ((e.mbr = 1) <=> (after # cur))),
-       refine_exact |-> (ok /\ e.op = "refine" => RefineExact(cur, after, e.tn, e.td, den, e.lv)),
+       \* (not judged on near-tie traces, where one occupancy was moved one unit in the last place off the threshold:
+       \*  the lattice cannot represent that; there the predicate/operation agreement above is the whole point)
+       refine_exact |-> (ok /\ e.op = "refine" /\ e.neartie = 0 => RefineExact(cur, after, e.tn, e.td, den, e.lv)),
        uniform_exact |-> (ok /\ e.op = "uniform" => UniformExact(cur, after)),
        aligned |-> (ok /\ e.op = "griddify" => Aligned(cur, after)) ]
 
@@ -60,7 +62,7 @@ Predicted(e) == CASE e.op = "refine" -> RefineResult(cur, e.tn, e.td, T.den, e.l
 Step == /\ l <= Len(T.events)
         /\ LET e == T.events[l] IN
              /\ fails' = fails \cup { <<l, k>> : k \in Bad(Clauses(e)) }
-             /\ drift' = IF e.ok = 1 /\ e.predict = 1 /\ SeqToSet(e.after) # Predicted(e)
+             /\ drift' = IF e.ok = 1 /\ e.predict = 1 /\ e.neartie = 0 /\ SeqToSet(e.after) # Predicted(e)
                          THEN drift \cup {<<l, e.op>>} ELSE drift
              /\ cur' = IF e.ok = 1 THEN SeqToSet(e.after) ELSE cur
         /\ l' = l + 1 /\ UNCHANGED tid
